@@ -19,20 +19,20 @@ import zlib
 from concurrent.futures import ThreadPoolExecutor
 
 from gverif import tlc
-from gverif.common import SEED, die  # noqa: I001
+from gverif.common import SEED, die, scratch  # noqa: I001
 from gverif.harness import Run
 
 Q = lambda xs: ", ".join(f'"{x}"' for x in xs)  # noqa: E731
 
 GROUPS = {   # domains of spec/SrcLayout.tla (DomTab) per TLC run
-    "quick": [("clean", ["core", "wide"], 4), ("hazard", ["breaks", "decos", "leak", "bom", "twin", "twinx"], 3)],
-    "thorough": [("core", ["core"], 6), ("wide", ["wide", "mid"], 6), ("hazard", ["breaks", "decos", "leak", "bom", "twin", "twinx"], 4)],
+    "quick": [("clean", ["core", "wide", "conts"], 4), ("hazard", ["breaks", "decos", "leak", "bom", "twin", "twinx"], 3)],
+    "thorough": [("core", ["core"], 6), ("wide", ["wide", "mid", "conts"], 6), ("hazard", ["breaks", "decos", "leak", "bom", "twin", "twinx"], 4)],
 }
 # every defect domain must make TLC report the unconditioned clauses violated (the model exhibits the defect)
 EXHIBIT_DOMAINS = ["breaks", "decos", "leak", "bom", "twinx"]
 EXHIBIT_INV = {"SpanExact", "DocExact", "TextExact", "FileExact", "Loadable"}
 # ... and every named cause must be seen in the model's own deviation table (implx) of some emitted layout
-EXPECT_DOMAINS = {"core", "wide", "breaks", "decos", "leak", "bom", "twin", "twinx"}
+EXPECT_DOMAINS = {"core", "wide", "conts", "breaks", "decos", "leak", "bom", "twin", "twinx"}
 
 
 def case_hash(case: dict) -> int:
@@ -45,14 +45,11 @@ def modes_for(h: int, case: dict, tier: str) -> tuple:
         return ("stubs",)
     m = ["load"]
     k = (h // 4) % 4
-    if tier == "thorough" or k == 0:
-        m.append("json")
-    if tier == "thorough" or k == 1:
-        m.append("nosource")
-    if tier == "thorough" or k == 2:
-        m.append("visit")
-    if tier == "thorough" or k == 3:
-        m.append("inspect")
+    # one extra mode per layout (two in the thorough tier): every mode meets every domain, evenly
+    ks = {k, (k + 1 + (h // 16) % 3) % 4} if tier == "thorough" else {k}
+    for j, name in enumerate(("json", "nosource", "visit", "inspect")):
+        if j in ks:
+            m.append(name)
     return tuple(m)
 
 
@@ -121,15 +118,21 @@ def replay_file(run: Run, path: str):
 
 def main(tier: str, replay: str | None = None):
     run = Run("X02", tier)
-    run.rule = ("SrcLayout.tla: every outline of <= MaxLen items (statement form x decorator list x depth) within the bounds of 5 "
-                "configurations (core deep, full alphabet shallow, hazard forms, stub+twin clean, stub+twin with stub-only objects); "
-                "one rendering variant (lf / crlf / no final newline / trailing blank lines) per layout. Non-trivial = distinct "
+    run.rule = ("SrcLayout.tla: every outline of <= MaxLen items (statement form x decorator list x depth) within the bounds of the "
+                "domains of DomTab (core: deep; wide/mid: full alphabet, shallow; breaks, decos, leak, bom: hazard forms; twin: stub + runtime "
+                "twin; twinx: with stub-only objects); one rendering variant (lf / crlf / no final newline / trailing blank lines) per layout. Non-trivial = distinct "
                 "(object kind, form, decorator list, nested or not) whose location was compared on the real code.")
     if replay:
         replay_file(run, replay)
-    from gverif.props import x02_replay  # noqa: PLC0415
-
     nproc = max(2, min(12, (os.cpu_count() or 4) - 2))
+    with scratch("x02-") as wd:
+        os.environ["X02_WORKDIR"] = wd                     # rendered packages of all workers; removed on exit
+        _main(run, tier, nproc)
+
+
+def _main(run: Run, tier: str, nproc: int):
+    from gverif.props import x02_replay  # noqa: PLC0415, F401
+
     pool = mp.get_context("fork").Pool(nproc)          # before any TLC output is parsed (copy-on-write)
     feeder = Feeder(pool, tier)
     totals = {"cases": 0, "objects": 0, "drift": 0, "inspected": 0, "modes": {}}
